@@ -343,7 +343,7 @@ class RefExec:
     def plan_resolver(self, obj_type, fd, path):
         fault = self.faults.get(path)
         p = self.plan
-        if fault in ("raise", "raise_tf", "raise_shared", "raise_odd"):
+        if fault in ("raise", "raise_tf", "raise_shared", "raise_odd", "raise_base"):
             tok = self.token(path)
             tf = None
             if fault == "raise_tf":
